@@ -579,6 +579,34 @@ def run_tree_case(run, rng, kind):
     if ttns is None:
         run.count("tree:rejected:TTNS.random")
         return None
+    # start states the optimiser is also handed in practice: genuinely complex ones (time-evolved states, a + i b) and
+    # sums / products that are NOT canonical (optimize_ttns does not canonicalise its input)
+    start = "random"
+    r_start = rng.random()
+    if r_start < 0.5:
+        t2 = None
+        for _ in range(4):
+            try:
+                with np.errstate(all="raise"):
+                    t2 = TTNS.random(tree, qn_arg, mfull if full else int(rng.choice([2, 4, mfull])))
+                break
+            except (FloatingPointError, ZeroDivisionError, ValueError, AssertionError):
+                L.seed_legacy(rng)
+                t2 = None
+        if t2 is not None:
+            try:
+                if r_start < 0.3:
+                    ttns = ttns.add(t2.scale(1j))
+                    ttns.canonicalise()
+                    start = "complex:canonical"
+                else:
+                    ttns = ttns.add(t2.scale(1j) if rng.random() < 0.3 else t2)
+                    start = "sum:not-canonical"
+            except Exception as e:  # noqa -- arithmetic is C11's business
+                run.count(f"tree:start-state-rejected:{type(e).__name__}")
+                return None
+    cfg["start"] = start
+    run.count(f"tree:start={start}")
     ttno = TTNO(tree, tm.ops())
     ttns.optimize_config.algo = algo
     micro = []
@@ -596,13 +624,20 @@ def run_tree_case(run, rng, kind):
         nloc = len(hdiag)
         if nloc <= 48:
             a = np.array([np.asarray(hop(np.eye(nloc)[i])) for i in range(nloc)]).T
-            asym = absmax(a - a.T)
+            asym = absmax(a - a.conj().T)
+            if np.iscomplexobj(a) and nloc >= 1:
+                # the local operator acts on complex trial vectors: it must be complex-linear
+                kcol = nloc // 2
+                lin = absmax(np.asarray(hop(1j * np.eye(nloc)[kcol])) - 1j * a[:, kcol])
+                if lin > 1e-9 * scale and not local_fired:
+                    run.violation("optimize_ttns:local-operator-not-complex-linear", dict(replay, dim=nloc, deviation=lin))
+                    local_fired.append("nonlinear")
             if asym > 1e-9 * scale:
                 if not local_fired:
                     run.violation(f"optimize_ttns:local-operator-not-hermitian", dict(replay, dim=nloc, asym=asym))
                 local_fired.append("asym")
             else:
-                wl = np.linalg.eigvalsh((a + a.T) / 2)
+                wl = np.linalg.eigvalsh((a + a.conj().T) / 2)
                 cn = float(np.linalg.norm(c))
                 if float(np.real(e)) < wl[0] - 1e-8 * scale or abs(cn - 1) > 1e-6:
                     # value below the lowest eigenvalue of the local matrix, or an "eigenvector" that is not normalised
@@ -648,7 +683,9 @@ def run_tree_case(run, rng, kind):
         tngs.eigh_iterative = orig_eigh
     tag = f"{algo}"
     tolv = 1e-8 * scale
-    allE = np.array(list(map(float, e_list)) + micro)
+    # every local energy is variational only when every local problem sees isometric environments: for a start state that is
+    # not canonical only the energies the optimiser REPORTS (one per sweep) are
+    allE = np.array(list(map(float, e_list)) + (micro if start != "sum:not-canonical" else []))
     if np.any(allE < w[0] - tolv) and not local_fired:
         run.violation(f"optimize_ttns:energy-below-exact:{tag}", dict(replay, lowest_reported=float(allE.min()), exact=float(w[0])))
     psi = np.asarray(ttns.todense(basis_list)).ravel()
@@ -664,7 +701,7 @@ def run_tree_case(run, rng, kind):
         leak = absmax(psi[~mask])
         if leak > 1e-9:
             run.violation(f"optimize_ttns:state-sector:{tag}", dict(replay, leak=leak))
-        est = float(psi @ h @ psi)
+        est = float(np.real(np.vdot(psi, h @ psi)))
         if full and (local_fired or (algo != "direct" and not irreducible(h[np.ix_(mask, mask)]))):
             run.count("T:full-check-skipped(local finding / reducible sector with iterative solver)")
         elif full:
